@@ -55,6 +55,8 @@ func emptinessTest(b *ssa.BasicBlock, recv ssa.Value) (f *types.Var, full *ssa.B
 }
 
 func checkC16(p *Program, r *Report) {
+	handedOutHashRule(p, r, "C16.frozen")
+	r.Floor("C16.frozen", 0)
 	r.Explain = "C16.writers: every memo field of bchutil.Block / bchutil.Tx (cached hash, serialised bytes, wrapped-transaction cache, completion flag) is stored only " +
 		"by constructors of a fresh object and by its own accessor, there only on the cache-empty edge (write once), with a value that derives from the wrapped " +
 		"message or fresh memory and nothing else; the accessor returns the memo on the cached path and stores it before returning on the computing path. " +
@@ -662,4 +664,61 @@ func recvMsgPrefix(fn *ssa.Function) string {
 		return "\x00"
 	}
 	return fn.Params[0].Name() + "."
+}
+
+// handedOutHashRule (round 5, C16-agent5-m3): the hash accessors of Tx and Block hand out POINTERS into the wrappers'
+// memos, and callers keep them (the merkle builders put them in their leaf lists).  Whoever then stores through a
+// *chainhash.Hash it did not allocate itself may be rewriting a wrapper's cached hash.  Decided over every function of
+// the repository: the target of a store through a *chainhash.Hash (whole value, element or copy destination) is memory
+// allocated in that function.
+func handedOutHashRule(p *Program, r *Report, rule string) int {
+	ef := NewEffects(p)
+	isHashPtr := func(t types.Type) bool {
+		pt, ok := t.Underlying().(*types.Pointer)
+		if !ok {
+			return false
+		}
+		nt, ok := pt.Elem().(*types.Named) // exactly *Hash, not **Hash
+		return ok && nt.Obj().Name() == "Hash" && nt.Obj().Pkg() != nil && nt.Obj().Pkg().Path() == "github.com/gcash/bchd/chaincfg/chainhash"
+	}
+	n := 0
+	for _, fn := range p.Funcs {
+		for _, b := range fn.Blocks {
+			for _, in := range b.Instrs {
+				var base ssa.Value
+				what := ""
+				switch x := in.(type) {
+				case *ssa.Store:
+					if isHashPtr(x.Addr.Type()) {
+						base, what = x.Addr, "store of a whole hash"
+					} else if ia, ok := x.Addr.(*ssa.IndexAddr); ok && isHashPtr(ia.X.Type()) {
+						base, what = ia.X, "store of a hash byte"
+					}
+				case *ssa.Call:
+					if isBuiltin(&x.Call, "copy") {
+						if sl, ok := x.Call.Args[0].(*ssa.Slice); ok && isHashPtr(sl.X.Type()) {
+							base, what = sl.X, "copy into a hash"
+						}
+					}
+				}
+				if base == nil {
+					continue
+				}
+				if al, ok := base.(*ssa.Alloc); ok && al.Parent() == fn {
+					continue // the function's own local (or new(Hash)): not worth an obligation
+				}
+				n++
+				var foreign []string
+				for rt := range ef.Src(base) {
+					if rt.Kind != rkFresh {
+						foreign = append(foreign, rt.String())
+					}
+				}
+				sort.Strings(foreign)
+				r.Add(rule, FnName(fn), what+" through "+exprString(base)+" targets memory this function allocated", p.InstrPos(in), len(foreign) == 0,
+					"may be a hash handed out by (*Tx).Hash / (*Block).Hash: "+strings.Join(foreign, ", "))
+			}
+		}
+	}
+	return n
 }
